@@ -1,7 +1,7 @@
 (* C14 -- open_files(), num_fds(), io_counters() reflect the descriptor table.
    Statements only; proofs live in C14/Proofs*.v.  Model: C14/Model.v
    (transcription of psutil/_pslinux.py), specification: C14/Spec.v. *)
-From PV Require Import C14.Spec C14.Mounts C14.PyMini C14.PyLoop Gen.C14_Tables C14.Proofs C14.ProofsIO C14.ProofsMounts C14.ProofsGen.
+From PV Require Import C14.Spec C14.Mounts C14.PyMini C14.PyLoop C14.PyPath Gen.C14_Tables C14.Proofs C14.ProofsIO C14.ProofsMounts C14.ProofsGen.
 
 (* the mode string is the one the flags imply, for every flag word; access mode 3
    (which has no documented mode string) is a KeyError in the code as written *)
@@ -118,3 +118,20 @@ Theorem C14_translated_io_roundtrip : forall items,
   forallb ioitem_ok items = true -> io_counters_gen (k_io items) = spec_io items.
 Proof. exact io_counters_gen_roundtrip. Qed.
 Print Assumptions C14_translated_io_roundtrip.
+
+(* tie to the source by translation, readlink(): the statement list translated from the CURRENT
+   psutil/_pslinux.py:readlink computes the model's readlink_clean for every link target and probe answer *)
+Theorem C14_translated_readlink_is_model : forall raw ex,
+  run_readlink gen_readlink raw ex = Val (readlink_clean raw ex).
+Proof. exact gen_readlink_correct. Qed.
+Print Assumptions C14_translated_readlink_is_model.
+
+(* ... and the stat helpers translated from psutil/_common.py: a permission failure is re-raised, EVERY other
+   OSError of stat() means "not there / not a regular file", which is what the model's isfile/exists answers assume *)
+Theorem C14_translated_strict_helpers :
+  (forall s, strict_answer gen_isfile_strict s =
+             match s with StOk r => SBool r | StErr EPerm => SDenied | StErr _ => SBool false end) /\
+  (forall s, strict_answer gen_path_exists_strict s =
+             match s with StOk _ => SBool true | StErr EPerm => SDenied | StErr _ => SBool false end).
+Proof. exact gen_strict_helpers_correct. Qed.
+Print Assumptions C14_translated_strict_helpers.
